@@ -51,7 +51,7 @@ type FeesCfg struct {
 	PScales   []int64  `json:"pscales"`   // multipliers of validator powers and delegated tokens
 	ModelPrec int64    `json:"modelPrec"` // PREC of the generating model (unit of rates and tax)
 	Stakers   int      `json:"stakers"`
-	Dogfood   []string `json:"dogfood"` // dogfood epoch identifiers to choose from ("day" = never ends here)
+	Dogfood   []string `json:"dogfood"`  // dogfood epoch identifiers to choose from ("day" = never ends here)
 	ExtraAvs  []int    `json:"extraAvs"` // number of additional AVSs every validator operator opts into, one picked per behaviour
 }
 
@@ -446,9 +446,14 @@ func (d *feesDriver) call(e BEvent, args map[string]interface{}) error {
 			return err
 		}
 		return k.DelegationKeeper.DelegateTo(ctx, &delegationtypes.DelegationOrUndelegationParams{ClientChainID: LzID, Action: assetstypes.DelegateTo, AssetsAddress: aaddr, OperatorAddress: w.Op(o), StakerAddress: saddr, OpAmount: x})
-	case "UpdateParams":
+	case "UpdateParams", "UpdateParamsDropped":
 		// MsgUpdateParams of x/feedistribution (community tax) and x/exomint (epoch reward), authority = the gov module
 		// account, dispatched through the app's message service router to the modules' real msg servers.
+		// "UpdateParamsDropped": the same two messages on a branch of state that is never written back (what a tx whose
+		// later message fails, a gas simulation or a failed proposal leaves behind): the configured values stay as they were.
+		if e.Ev == "UpdateParamsDropped" {
+			ctx, _ = ctx.CacheContext()
+		}
 		mp := d.fc.ModelPrec
 		tax := scaleRate(e.big("tax"), mp)
 		reward := new(big.Int).Mul(e.big("reward"), d.su.Scale)
@@ -627,8 +632,12 @@ func (d *feesDriver) project() map[string]interface{} {
 
 	// the environment the allocation reads
 	env := map[string]interface{}{}
-	dp := k.DistrKeeper.GetParams(ctx)
-	mp := k.ExomintKeeper.GetParams(ctx)
+	// the CONFIGURED parameters are what the stores hold (read raw, not through the keepers' getters: a getter that
+	// answers from memory would otherwise define its own truth)
+	var dp distrtypes.Params
+	var mp exominttypes.Params
+	k.AppCodec().MustUnmarshal(store.Get(distrtypes.KeyPrefixParams), &dp)
+	k.AppCodec().MustUnmarshal(ctx.KVStore(k.GetKey(exominttypes.StoreKey)).Get(exominttypes.KeyPrefixParams()), &mp)
 	env["tax"], env["distId"] = ND(dp.CommunityTax), dp.EpochIdentifier
 	env["reward"], env["mintId"], env["mintDenom"] = NI(mp.EpochReward), mp.EpochIdentifier, mp.MintDenom
 	env["ltp"] = NI(k.StakingKeeper.GetLastTotalPower(ctx))
